@@ -1,8 +1,19 @@
 (* c13 driver.  stdin: one case per line.
      R s1 e1 s2 e2 ...            -> remove_overlaps on those spans; prints kept ids
      A kind a b | src cps | cs cps -> Suggestion::apply;            prints "P" or "O cps"
-     B a a' s1 e1 s2 e2 ...        -> chunk-cache re-basing of those spans from chunk start a to a'; prints "P" or the spans *)
+     B a a' s1 e1 s2 e2 ...        -> chunk-cache re-basing of those spans from chunk start a to a'; prints "P" or the spans
+     W n s1 e1 g1 s2 e2 g2 ...     -> harper-wasm Linter::lint after group.lint: n = 1 when no hash is stored, g = 1 ignored; prints reported ids
+     F n | src cps | s e g k cps | ... -> lint as W, then one suggestion (kind k, chars) per reported lint, last first; "P" or "O cps"
+     C s e s e ... | k s e k s e ... | ... -> CurrencyPlacement::lint: the (start,end) pairs whose text is wrong, then one section per chunk
+                                      (k: 0 number 1 currency 2 other punctuation 3 whitespace 4 other); "P" or the spans of the lints *)
 let rec pairs = function a :: b :: t -> (nat_of_int a, nat_of_int b) :: pairs t | _ -> []
+let rec triples = function a :: b :: c :: t -> ((nat_of_int a, nat_of_int b), c <> 0) :: triples t | _ -> []
+let rec ktriples = function k :: a :: b :: t -> (nat_of_int k, (nat_of_int a, nat_of_int b)) :: ktriples t | _ -> []
+let spans_line r = String.trim (String.concat " " (List.map (fun (x, y) -> string_of_int (int_of_nat x) ^ " " ^ string_of_int (int_of_nat y)) r))
+let fix_item (sec : string) =
+  match ints_of_line sec with
+  | s :: e :: g :: k :: cs -> (((nat_of_int s, nat_of_int e), g <> 0), (nat_of_int k, List.map n_of_int cs))
+  | _ -> failwith "bad F item"
 let () =
   iter_lines (fun l ->
     if String.length l = 0 then print_newline () else
@@ -27,5 +38,28 @@ let () =
              (match run_rebase (nat_of_int a) (nat_of_int a2) (pairs rest) with
               | None -> print_endline "P"
               | Some r -> print_endline (String.trim (String.concat " " (List.map (fun (x, y) -> string_of_int (int_of_nat x) ^ " " ^ string_of_int (int_of_nat y)) r))))
+         | _ -> print_endline "?")
+    | 'W' ->
+        (match ints_of_line body with
+         | n :: rest ->
+             let kept = run_wasm_lint (n <> 0) (triples rest) in
+             print_endline (String.concat " " (List.map (fun k -> string_of_int (int_of_nat k)) kept))
+         | _ -> print_endline "?")
+    | 'F' ->
+        (match split_bar body with
+         | hd :: src :: items ->
+             (match ints_of_line hd with
+              | [n] ->
+                  (match run_fix_all (n <> 0) (text_of_line src) (List.map fix_item (List.filter (fun x -> x <> "") items)) with
+                   | None -> print_endline "P"
+                   | Some t -> print_endline (String.trim ("O " ^ line_of_text t)))
+              | _ -> print_endline "?")
+         | _ -> print_endline "?")
+    | 'C' ->
+        (match split_bar body with
+         | wrongs :: chunks ->
+             (match run_currency (List.map (fun c -> ktriples (ints_of_line c)) chunks) (pairs (ints_of_line wrongs)) with
+              | None -> print_endline "P"
+              | Some r -> print_endline (spans_line r))
          | _ -> print_endline "?")
     | _ -> print_endline "?")
